@@ -1223,6 +1223,92 @@ pub fn gen(seed: u64, thorough: bool) -> Vec<String> {
         }
     }
 
+    // Y. YUV triples singled out by the rounding-error analysis of `Proofs/YuvErr.lean` (the decoders are proved
+    // within the tolerance for ALL inputs there; these cases pin the model = implementation tie where that analysis is
+    // tight): the 7^3 lattice {0, 1, luma offset, mid-1, mid, max-1, max}^3 (largest |c|, |d|, |e|; black; both
+    // saturations), for every extreme chroma pair the luma values around the two clamp boundaries of each channel (a
+    // result just inside / just outside (0,1)), and the triples with the largest observed binary32 error resp. distance
+    // of the U8 / U16 code from the ideal (exhaustive for 8 bit, 2^25 samples for 10 / 16 bit; notes/C04.md), among them
+    // exact U8 ties of the ideal G channel and yuv8::n8 inputs that come out one code off the nearest.
+    {
+        const Y8: &[(u64, u64, u64)] = &[
+            (238, 0, 85), (212, 56, 145), (221, 81, 0), (1, 84, 41), (26, 104, 93), (29, 143, 17), (31, 17, 24), (37, 250, 63),
+            (116, 58, 233), (182, 157, 238), (190, 109, 93), (12, 230, 11), (130, 243, 127), (152, 224, 255), (64, 144, 122),
+            (94, 77, 105), (2, 178, 178), (3, 223, 0), (234, 83, 82), (221, 240, 209), (220, 56, 218), (232, 75, 248),
+            (232, 5, 251), (215, 34, 236), (209, 38, 254), (254, 126, 254), (210, 82, 251), (229, 107, 32), (235, 128, 128),
+            (16, 128, 128), (81, 90, 240), (145, 54, 34), (41, 240, 110),
+        ];
+        const Y10: &[(u64, u64, u64)] = &[
+            (985, 497, 340), (993, 135, 1016), (985, 266, 602), (336, 305, 903), (840, 765, 369), (993, 737, 498),
+            (984, 246, 776), (1009, 540, 680), (827, 528, 65), (1009, 172, 204), (985, 542, 625), (969, 504, 915),
+            (998, 434, 727), (974, 208, 998), (1001, 334, 73), (940, 512, 512), (64, 512, 512),
+        ];
+        const Y16: &[(u64, u64, u64)] = &[
+            (64185, 39755, 21736), (65404, 14109, 62020), (64843, 61, 14826), (61163, 58927, 15691), (60604, 10369, 10785),
+            (63558, 38954, 51569), (65356, 21527, 64755), (61287, 10267, 57131), (64558, 1754, 32122), (63795, 64525, 12383),
+            (63137, 7134, 22460), (65526, 47613, 58898), (63700, 37698, 56427), (65282, 7265, 57996), (61310, 8, 24523),
+            (64629, 90, 35925), (65453, 16951, 14072), (60160, 32768, 32768), (4096, 32768, 32768),
+        ];
+        for (name, bits, listed) in [("AYUV", 8u32, Y8), ("Y410", 10, Y10), ("Y416", 16, Y16)] {
+            let fm = tab.iter().find(|f| f.name == name).unwrap();
+            let max: u64 = (1u64 << bits) - 1;
+            let (oy, oc): (i128, i128) = (1i128 << (bits - 4), 1i128 << (bits - 1));
+            let lv = [0u64, 1, oy as u64, max / 2, max / 2 + 1, max - 1, max];
+            let mut triples: Vec<(u64, u64, u64)> = vec![];
+            for &y in &lv {
+                for &u in &lv {
+                    for &v in &lv {
+                        triples.push((y, u, v));
+                    }
+                }
+            }
+            triples.extend(listed.iter().copied());
+            // luma values at which a channel enters / leaves (0, 1) for extreme chroma
+            let ch = [0u64, max / 4, max / 2 + 1, max - max / 4, max];
+            for &u in &ch {
+                for &v in &ch {
+                    let (d, e) = (u as i128 - oc, v as i128 - oc);
+                    let rest = [1_596_027 * e, -391_762 * d - 812_968 * e, 2_017_232 * d];
+                    for r in rest {
+                        for target in [0i128, 1_000_000 * max as i128] {
+                            // smallest y with 1164383 (y - oy) + r >= target
+                            let y0 = oy + (target - r + 1_164_382).div_euclid(1_164_383);
+                            for y in [y0 - 2, y0 - 1, y0, y0 + 1] {
+                                if y >= 0 && y <= max as i128 {
+                                    triples.push((y as u64, u, v));
+                                }
+                            }
+                        }
+                    }
+                }
+            }
+            triples.sort();
+            triples.dedup();
+            let units: Vec<String> = triples
+                .iter()
+                .enumerate()
+                .map(|(i, &(y, u, v))| {
+                    let mut w: u128 = 0;
+                    for fld in &fm.fields {
+                        let val: u128 = match fld.comp {
+                            Comp::Y => y as u128,
+                            Comp::U => u as u128,
+                            Comp::V => v as u128,
+                            _ => (i as u128).wrapping_mul(0x9E37) ^ 0xFFFF,
+                        };
+                        w |= (val & ((1u128 << fld.width) - 1)) << fld.off;
+                    }
+                    format!("{w:x}")
+                })
+                .collect();
+            for prec in 0..3 {
+                for chunk in units.chunks(CH) {
+                    g.out.push(format!("D {} {} {} {} 1 H:{}", fm.name, native_name(fm), prec, chunk.len(), chunk.join(",")));
+                }
+            }
+        }
+    }
+
     // D. float specials in every float field (others: specials too, rotated)
     for fm in tab.iter().filter(|f| f.fields.iter().any(|x| matches!(x.kind, Kind::Half | Kind::F32 | Kind::F11 | Kind::F10))) {
         let kind = fm.fields[0].kind;
